@@ -396,7 +396,7 @@ cfg_strategy = st.fixed_dictionaries(
 
 
 class FaultedHistories(SubCheck):
-    case_timeout_s = 1800  # one case is a whole batch of runs (every kill point / fault site of a history)
+    case_timeout_s = None  # one case is a whole batch of runs (every fault site of a history): each run is watched by itself
     name = 'faulted_histories'
 
     def examples(self, tier):
@@ -416,7 +416,9 @@ class FaultedHistories(SubCheck):
     def execute(self, case, env):
         tier = env.tier
         # dry run: enumerate the fault sites of this history (and judge the unfaulted run)
-        inj, state, problems = run_history(env, case, None)
+        from ..engine import watched
+
+        inj, state, problems = watched(lambda: run_history(env, case, None), 60, 'C08', 'faulted_histories')
         judge(case, inj, state, problems)
         sites = [(kind, j, n) for (j, kind, n, lab) in inj.sites if not (kind == 'sql' and lab in ('sql:ROLLBACK',))]
         sites += [('sqlfull', j, n) for (j, kind, n, lab) in inj.sites if kind == 'sql' and lab.split()[0] in ('sql:INSERT', 'sql:UPDATE', 'sql:DELETE')]
@@ -437,7 +439,11 @@ class FaultedHistories(SubCheck):
         else:
             chosen = sites
         for site in chosen:
-            inj2, state2, problems2 = run_history(env, case, site)
+            try:
+                inj2, state2, problems2 = watched(lambda: run_history(env, case, site), 60, 'C08', 'faulted_histories')
+            except Violation as v:
+                v.min_case = dict(case, site=list(site))
+                raise
             count += 1
             if problems2:
                 try:
